@@ -3,7 +3,9 @@
 Real threads run under the deterministic scheduler (harness/sched.py): one thread at a time, a yield point
 before every lock operation, every `file.write`, every access to `console._render_hooks`, to the record
 buffer and to the live display's `_shape` / renderable — and, in line mode, at every executed source line of
-rich/{console,live,live_render,progress,file_proxy}.py.
+rich/{console,live,live_render,progress,file_proxy,segment,control,ansi}.py.  Threads also write whole lines, several lines and
+partial lines through the redirected sys.stdout / sys.stderr (operation W; the pending-text list of each FileProxy is a traced
+object: its reads, appends and `del` are yield points), and line probes preempt a writer at every executed line of rich/file_proxy.py.
 
 Correspondence (trace inclusion): the sequence of shared accesses a real run performed (thread id + kind) is
 replayed on the Lean transition system (Model/Conc.lean) by `drv_c11 conc_run`; the model must accept the
@@ -15,7 +17,9 @@ Direct evaluation (3d) on real rich, with oracles independent of the model: ever
 exactly one write call, contiguously, once; captures contain exactly their own block's output; the record has
 the order of the file, and what the clearing exports returned (export_text / export_html raced with the prints)
 plus the final record is exactly the file; start() / stop() raced by several threads take effect once (hook
-stack depth <= 1, cursor hidden once, sys.stdout / sys.stderr wrapped once); no deadlock, no exception, every
+stack depth <= 1, cursor hidden once, sys.stdout / sys.stderr wrapped once); every complete line written by ONE write() call on the
+redirected sys.stdout / sys.stderr reaches the console contiguously, exactly once, in one console.print / one file.write of the writing
+thread (`proxy_line_once`; oracle = the text of the call); no deadlock, no exception, every
 write happens under the console lock; the file replayed on the terminal oracle (harness/term.py) shows the
 printed lines (file order) followed by the frame of the last display write (outside constant-height sessions
 this fails on real rich: five recorded known findings, printed as KNOWN-FINDING, see MANIFEST note).
@@ -78,6 +82,39 @@ def evaluate(scn, res):
             elif op[0] == "N":
                 for j, (lines, how) in enumerate(op[1:4]):
                     all_chunks[(tid, i, j)] = (plain_text(scn, lines, how), True)
+            elif op[0] == "W":
+                # what the proxy handed to the console in this run (one entry per console.print call it made)
+                for j, lines in enumerate(res.proxy_prints.get((tid, i), [])):
+                    c = plain_text(scn, lines, "str")
+                    if c.strip():
+                        all_chunks[(tid, i, j)] = (c, False)
+    # ---- redirected sys.stdout / sys.stderr: every complete line written by ONE write() call reaches the console contiguously, once
+    # (oracle: the text of the call itself; independent of the model and of the observed console.print calls)
+    for tid, prog in enumerate(scn.progs):
+        for i, op in enumerate(prog):
+            if op[0] != "W":
+                continue
+            parts = op[2].split("\n")
+            complete, rest = parts[:-1], parts[-1]
+            if complete and all(complete):
+                tail = "\n".join(complete) + "\n"
+                hits = [k for k, (wt, text) in enumerate(res.writes) if tail in text]
+                ok = len(hits) == 1 and file_text.count(tail) == 1 and res.writes[hits[0]][0] == tid
+                chk(ok, "proxy_line_once", f"thread {tid} op {i}: sys.std{'out' if op[1] == 'o' else 'err'}.write({op[2]!r}): its complete lines {tail!r} "
+                    f"found in file writes {hits} ({file_text.count(tail)} occurrences; writers {[res.writes[k][0] for k in hits]}); "
+                    f"the proxy printed {res.proxy_prints.get((tid, i), [])}")
+                for l in complete:
+                    chk(file_text.count(l) == 1 and file_text.count(l + "\n") == 1, "proxy_line_once",
+                        f"thread {tid} op {i}: line {l!r} of write({op[2]!r}) occurs {file_text.count(l)}x in the file, {file_text.count(l + chr(10))}x followed by its new line")
+                n_pr = len(res.proxy_prints.get((tid, i), []))
+                chk(n_pr == 1, "proxy_line_once", f"thread {tid} op {i}: write({op[2]!r}) made {n_pr} console.print calls")
+            elif not complete:
+                n_pr = len(res.proxy_prints.get((tid, i), []))
+                chk(n_pr == 0, "proxy_line_once", f"thread {tid} op {i}: write({op[2]!r}) completes no line but made {n_pr} console.print calls")
+            if rest:
+                # observation only (outside the statement of C11): a partial line survives until some later write completes it
+                n = file_text.count(rest) + sum(v.count(rest) for v in res.proxy_pending.values())
+                out.append((True, "note:proxy-partial-" + ("kept" if n == 1 else "lost" if n == 0 else "duplicated"), "", None))
     for (tid, i, j), (chunk, captured) in all_chunks.items():
         hits = [k for k, (wt, text) in enumerate(res.writes) if chunk in text]
         total = file_text.count(chunk)
@@ -338,7 +375,52 @@ def fixed_scenarios():
                                                  [[("S",), ("X",)], [("S",), P(1, 1)]]), False))
     out.append(("progress-stop-race", LC.Scn("progress", 30, 8, False, True, "visible", ["a", "b"],
                                              [[("S",), ("X",)], [("G", 1), ("X",), P(1, 2)], [("G", 1), ("X",), ("S",)]], npre=1), False))
+    # redirected sys.stdout / sys.stderr under a running display: whole lines, several lines, partial lines from two threads
+    W = lambda text, s="o": ("W", s, text)
+    out.append(("live-proxy-lines", LC.Scn("live", 30, 8, True, False, "ellipsis", ["G1", "G2"],
+                                           [[("S",), ("R",), ("J",), ("X",)], [("G", 2), W("t1a\n"), W("t1b\nt1c\n")],
+                                            [("G", 2), W("t2a\nt2b\n")]], npre=2), True))
+    out.append(("live-proxy-partial", LC.Scn("live", 30, 8, False, False, "ellipsis", ["G1"],
+                                             [[("S",), ("R",), ("J",), ("X",)], [("G", 2), W("t1p"), W("t1q\n")],
+                                              [("G", 2), W("t2a\nt2r"), W("t2s\n")]], npre=2), True))
+    out.append(("progress-proxy-lines", LC.Scn("progress", 30, 8, True, False, "visible", ["a"],
+                                               [[("S",), ("J",), ("X",)], [("G", 1), W("t1a\n", "e")],
+                                                [("G", 1), W("t2p", "e"), W("t2a\n", "e")]], npre=1), True))
     return out
+
+
+# share of the per-scenario run cap the proxy scenarios get (they were added to a full time budget)
+CAP_SCALE = {"live-proxy-lines": 0.3, "live-proxy-partial": 0.3, "progress-proxy-lines": 0.3}
+
+
+def random_proxy_scenario(rng):
+    """A running display (started before, stopped after the concurrent phase); 2-3 threads write whole lines, several lines and
+    partial lines to the redirected sys.stdout / sys.stderr and print.  Every thread ends each stream it used with a completed line,
+    so nothing is pending when stop() flushes the proxies (the model's flushProxies prints nothing)."""
+    kind = rng.choice(["live", "live", "progress"])
+    n = rng.choice([3, 3, 4])
+    record = rng.random() < 0.5
+    init = ["G1", "G2"][: rng.randint(1, 2)] if kind == "live" else ["a", "b"][: rng.randint(1, 2)]
+    npre = 2 if kind == "live" else 1
+    progs = [([("S",), ("R",)] if kind == "live" else [("S",)]) + [("J",), ("X",)]]
+    for t in range(1, n):
+        prog = [("G", npre)]
+        used = {}
+        for i in range(1, rng.randint(2, 4)):
+            tok = f"t{t}o{i}"
+            r = rng.random()
+            st = rng.choice("ooe")
+            if r < 0.15:
+                prog.append(("P", [tok + "x"], rng.choice(["seg", "str", "log"])))
+                continue
+            text = (tok + "a\n") if r < 0.5 else (tok + "p") if r < 0.7 else (tok + "a\n" + tok + "b\n") if r < 0.85 else (tok + "a\n" + tok + "r")
+            prog.append(("W", st, text))
+            used[st] = text.endswith("\n")
+        for st, closed in sorted(used.items()):
+            if not closed:
+                prog.append(("W", st, f"t{t}z{st}\n"))
+        progs.append(prog)
+    return LC.Scn(kind, 40, rng.choice([5, 8]), record, rng.random() < 0.3, rng.choice(["crop", "ellipsis", "visible"]), init, progs, npre=npre), True
 
 
 def random_scenario(rng, stable=None):
@@ -427,12 +509,17 @@ def random_scenario(rng, stable=None):
 
 # ------------------------------------------------------------------------------------------------ workers
 def _record(scn, res, stable, label):
-    req = ["conc_run", scn.enc_cfg(STOP_TAIL_UNLOCKED), scn.enc_init(), scn.enc_progs(), LC.enc_events(res.events)]
+    req = ["conc_run", scn.enc_cfg(STOP_TAIL_UNLOCKED), scn.enc_init(), scn.enc_progs(res.proxy_prints), LC.enc_events(res.events)]
     if res.deadlock is not None or res.exc:
         exp = None
     else:
         exp = "ok#" + LC.enc_obs(scn, res.events) + "#" + LC.enc_final(scn, res)
     checks = evaluate(scn, res)
+    notes = [site[5:] for ok, site, _, _ in checks if site.startswith("note:")]
+    checks = [c for c in checks if not c[1].startswith("note:")]
+    if any(op[0] == "W" for p in scn.progs for op in p):
+        notes.append("proxy-buffer-traced" if res.proxy_traced else "proxy-buffer-not-traced")
+        notes += ["proxy-events:%d" % min(sum(1 for e in res.events if e[1] in LC.PROXY_KINDS), 12)]
     fails = [(site, what, finding) for ok, site, what, finding in checks if not ok]
     counts = {}
     for ok, site, _, _ in checks:
@@ -442,7 +529,7 @@ def _record(scn, res, stable, label):
         fails = [(s, w, None if s == "live_screen_under_schedules" else f) for s, w, f in fails]
     pre = sum(1 for i in range(1, len(res.choices)) if res.choices[i] != res.choices[i - 1] and res.choices[i - 1] in res.sched.runnable_log[i])
     return {"req": req, "exp": exp, "fails": fails, "counts": counts, "inp": (repr(scn), list(res.choices)), "label": label,
-            "n_events": len(res.events), "preempt": pre, "nthreads": len(scn.progs)}
+            "n_events": len(res.events), "preempt": pre, "nthreads": len(scn.progs), "notes": notes}
 
 
 class _R:  # adapter: explore() wants .choices / .runnable_log
@@ -473,6 +560,7 @@ def probe_scenarios():
     """(name, scenario, thread to preempt, file): line-granularity probes — the thread is preempted at EVERY executed line of
     the file in turn, the other threads then run as far as they can, then it finishes (complete for one such preemption)."""
     P = lambda t, i: ("P", [mk(t, i)], "seg")
+    W = lambda text, s="o": ("W", s, text)
     return [
         ("progress-print-vs-stop", LC.Scn("progress", 30, 8, False, False, "visible", ["a"],
                                           [[("S",)], [("G", 1), P(1, 1)], [("G", 1), ("X",)]], npre=1), 1, "rich/live_render.py"),
@@ -482,6 +570,15 @@ def probe_scenarios():
                                       [[("S",), ("R",)], [("G", 2), P(1, 1)], [("G", 2), ("X",)]], npre=2), 1, "rich/live_render.py"),
         ("live-print-vs-update", LC.Scn("live", 30, 8, False, False, "ellipsis", ["G1", "G2"],
                                         [[("S",), ("R",), ("J",), ("X",)], [("G", 2), P(1, 1)], [("G", 2), ("U", ["H1", "H2"], True)]], npre=2), 1, "rich/live.py"),
+        # a thread inside FileProxy.write is preempted at every executed line of rich/file_proxy.py while the other writes through the same proxy
+        ("proxy-line-vs-line", LC.Scn("live", 30, 8, False, False, "ellipsis", ["G1"],
+                                      [[("S",), ("R",)], [("G", 2), W("t1a\n")], [("G", 2), W("t2a\n")]], npre=2), 1, "rich/file_proxy.py"),
+        ("proxy-lines-vs-lines", LC.Scn("live", 30, 8, True, False, "ellipsis", ["G1", "G2"],
+                                        [[("S",), ("R",)], [("G", 2), W("t1a\nt1b\n"), W("t1c\n")], [("G", 2), W("t2a\n"), W("t2b\nt2c\n")]], npre=2), 2, "rich/file_proxy.py"),
+        ("proxy-partial-vs-line", LC.Scn("live", 30, 8, False, False, "ellipsis", ["G1"],
+                                         [[("S",), ("R",)], [("G", 2), W("t1p"), W("t1q\n")], [("G", 2), W("t2a\n")]], npre=2), 1, "rich/file_proxy.py"),
+        ("proxy-line-vs-partial", LC.Scn("progress", 30, 8, False, False, "visible", ["a"],
+                                         [[("S",)], [("G", 1), W("t1a\n", "e")], [("G", 1), W("t2p", "e"), W("t2q\nt2r", "e"), W("t2s\n", "e")]], npre=1), 1, "rich/file_proxy.py"),
     ]
 
 
@@ -500,11 +597,12 @@ def _probe_task(idx):
 def _random_task(args):
     import random
 
-    seed, n_runs, line_mode = args
+    seed, n_runs, line_mode = args[:3]
+    proxy = len(args) > 3 and args[3]
     rng = random.Random(seed)
     out = []
     for _ in range(n_runs):
-        scn, stable = random_scenario(rng)
+        scn, stable = random_proxy_scenario(rng) if proxy else random_scenario(rng)
         n = len(scn.progs)
         r = rng.random()
         if line_mode:
@@ -514,7 +612,7 @@ def _random_task(args):
         else:
             chooser = S.PCT(rng, range(n), rng.choice([2, 3, 4]), 60 * n)
         res = LC.run_real(scn, chooser, line_mode=line_mode)
-        out.append(_record(scn, res, stable, ("line:" if line_mode else "random:") + scn.kind + (":stable" if stable else ":free")))
+        out.append(_record(scn, res, stable, ("line:" if line_mode else "random:") + scn.kind + (":proxy" if proxy else ":stable" if stable else ":free")))
     return out
 
 
@@ -524,6 +622,8 @@ def _absorb(ctx, rec):
     ctx.note(f"threads:{rec['nthreads']}")
     ctx.note(f"preemptions:{min(rec['preempt'], 6)}")
     ctx.note(f"events:{min(rec['n_events'] // 25 * 25, 200)}+")
+    for k in rec.get("notes", ()):
+        ctx.note(k)
     for site, n in rec["counts"].items():
         ctx.dist["prop:" + site] += n
     for site, what, finding in rec["fails"]:
@@ -544,14 +644,19 @@ def run(ctx):
     n_rand_tasks = 32 if quick else 256
     rand = [(ctx.rng.getrandbits(48), 30 if quick else 150, False) for _ in range(n_rand_tasks)]
     line = [(ctx.rng.getrandbits(48), 3 if quick else 15, True) for _ in range(16 if quick else 96)]
+    prox = ([(ctx.rng.getrandbits(48), 12 if quick else 100, False, True) for _ in range(8 if quick else 64)]
+            + [(ctx.rng.getrandbits(48), 2 if quick else 10, True, True) for _ in range(8 if quick else 32)])
     ctx.assumptions += [
-        "threads switch only at the yield points of harness/sched.py (sync points always; every source line of the five rich modules in "
-        "line mode); preemption inside a source line and C-level reentrancy of file.write are not exhibited",
+        "threads switch only at the yield points of harness/sched.py (sync points always — lock operations, file.write, hooks / record / shape / "
+        "renderable, and the pending-text list of the FileProxy objects; every source line of rich/{console,live,live_render,progress,file_proxy,"
+        "segment,control,ansi}.py in line mode); preemption inside a source line and C-level reentrancy of file.write are not exhibited",
         "the model's atomic actions are the statement sequences between two shared accesses; thread-local statements commute with "
         "every action of another thread (ConsoleThreadLocals is threading.local)",
         "what a print renders to (its lines) is a parameter of the model, measured on a console without a display",
-        "redirect_stdout / redirect_stderr are on, over stand-in streams to which nothing is ever written (the model has no pending proxy "
-        "text: its flushProxies action prints nothing); auto_refresh=False (the refresh thread is one more thread calling refresh())",
+        "redirect_stdout / redirect_stderr are on; threads write whole, multiple and partial lines through the installed FileProxy objects "
+        "(operation W); which lines a write() hands to the console (the completed lines, the first prefixed by what was pending) is observed on "
+        "real rich and given to the model (Op.proxyPrint); every scenario completes its partial lines before stop(), so the model's "
+        "flushProxies action prints nothing; auto_refresh=False (the refresh thread is one more thread calling refresh())",
     ]
     with multiprocessing.get_context("fork").Pool(NPROC) as pool:
         # phase A: every schedule with at most 1 preemption, complete; phase B: `bound` preemptions, capped per scenario
@@ -563,7 +668,7 @@ def run(ctx):
                 if phase == 0:
                     for rec in recs:
                         _absorb(ctx, rec)
-                cap = None if budget is None else max(budget // max(len(kids), 1), 2)
+                cap = None if budget is None else max(int(budget * CAP_SCALE.get(fixed[i][0], 1)) // max(len(kids), 1), 2)
                 tasks += [(i, b, cap, k) for k in kids]
             n_capped = 0
             for (i, _b, cap, _k), recs in zip(tasks, pool.imap(_subtree_task, tasks, chunksize=4)):
@@ -577,7 +682,7 @@ def run(ctx):
         for recs in pool.imap(_probe_task, range(len(probe_scenarios())), chunksize=1):
             for rec in recs:
                 _absorb(ctx, rec)
-        for recs in pool.imap(_random_task, rand + line, chunksize=1):
+        for recs in pool.imap(_random_task, rand + line + prox, chunksize=1):
             for rec in recs:
                 _absorb(ctx, rec)
     ctx.flush()
@@ -587,7 +692,9 @@ def run(ctx):
         "preemptions (depth-first below every first-level node, capped at about %d runs per scenario; the evidence counts the subtrees cut "
         "by the cap) at sync granularity, of %d fixed 2-3 thread scenarios; beyond: seeded random scenarios (2-4 threads, programs <= 3 "
         "ops over print/log/capture/export/update/refresh/advance/start/stop) under random-walk and PCT schedulers, line-granularity runs, "
-        "and line probes (one thread preempted at every executed line of live_render.py / live.py in turn); "
+        "and line probes (one thread preempted at every executed line of live_render.py / live.py / file_proxy.py in turn); three of the fixed "
+        "scenarios, four of the probes and a separate random stream have threads writing whole / several / partial lines through the redirected "
+        "sys.stdout / sys.stderr; "
         "distinct = distinct (scenario, event trace) requests" % (bound, per_scn, len(fixed))
     )
 
@@ -607,10 +714,12 @@ MANIFEST = {
     "error; write_mutual_exclusion; write_own_output_only (a write call = pieces of one thread, one operation); output_exactly_once "
     "(every piece a thread produced is in exactly one place once: one write of that thread, one of its capture results, or its "
     "buffer) + finished_thread_flushed, combined in write_per_print (finished thread: every piece exactly once in its writes / "
-    "captures, and the write holding it is that thread's, one operation's); capture_isolated; record_order_eq_file_order; live_screen_under_schedules_partial (sessions "
+    "captures, and the write holding it is that thread's, one operation's); write_calls_per_operation + at_most_one_write_call_per_print "
+    "(round 4: the number of file.write CALLS a thread issues during an operation never exceeds the number of write statements in the "
+    "operation's code; a print / log has exactly one, under any display, any schedule); capture_isolated; record_order_eq_file_order; live_screen_under_schedules_partial (sessions "
     "whose frames all have one height: replaying the file in file order shows the printed lines then the frame of the last write, "
     "via C10's run_hooked); old_print_vs_taller_refresh_breaks_screen = machine-checked witness schedule for the general screen "
-    "statement (finding F22).  18 theorems in all: these, the invariants reach_inv / reach_out, and exports_partition_the_record, "
+    "statement (finding F22).  20 theorems in all: these, the invariants reach_inv / reach_out, and exports_partition_the_record, "
     "export_reads_a_stable_record, record_eq_file_when_quiet, old_progress_stop_tail_races_start (see note).  Tie: real threads under a deterministic scheduler (harness/sched.py; yield points: every lock "
     "operation, file.write, access to _render_hooks / record buffer / _live_render._shape / renderable, and in line mode every source "
     "line of the five modules); every recorded trace of shared accesses is replayed on the model (trace inclusion) with equal "
@@ -619,7 +728,18 @@ MANIFEST = {
     "under random-walk / PCT schedulers, line-granularity runs (quick 48, thorough 1440) and line probes; the theorems' executable statements are evaluated on the real "
     "output of every run (one write call per print, capture contents, export order, lock held at every write, no deadlock / "
     "exception, terminal replay of the file).",
-    "note": "Exports: threads may call export_text / export_html (clear or not) at any time; model: read and clear inside one "
+    "note": "Redirected sys.stdout / sys.stderr (round 4): the program type has Op.proxyPrint lines = a write() through the FileProxy of a "
+    "running display that completes lines (file_proxy.py: `with console: console.print(lines)`, i.e. a print inside one more buffering "
+    "level); every theorem covers it (StableOp too, so the constant-height screen theorem covers threads writing through the proxy).  Harness: "
+    "operation ('W', stream, text) = one write() call; fixed scenarios live-proxy-lines / live-proxy-partial / progress-proxy-lines (explored like "
+    "the others, at 30 % of the run cap), line probes proxy-* (writer preempted at every executed line of rich/file_proxy.py), random proxy "
+    "scenarios (quick 96 sync + 16 line-mode runs); the FileProxy's pending-text list is swapped for a traced object (found by type, any "
+    "attribute ending in 'buffer'; if absent only line mode sees inside), its accesses are yield points but not events of the model; which "
+    "lines each write() handed to console.print is OBSERVED (a spy on console.print) and given to the model, so the assembly of a line "
+    "from the shared pending text is NOT modelled (no Model/ConcProxy): the tie for it is the direct evaluation proxy_line_once only.  "
+    "Observation outside C11's statement: a PARTIAL line (no newline in its write() call) can be lost or duplicated when another thread is "
+    "preempted between `''.join(buffer)` and `del buffer[:]` in FileProxy.write (counted in the evidence as proxy-partial-lost / "
+    "-duplicated; complete lines of a single write() call never pass through the shared list and are always intact).  Exports: threads may call export_text / export_html (clear or not) at any time; model: read and clear inside one "
     "critical section of the record lock; theorems exports_partition_the_record (clearing exports in critical-section order + final "
     "record = file, in file order, for every schedule) and export_reads_a_stable_record; direct evaluation walks the real exports in the "
     "order of their record reads and checks the partition against the file (yield points at the record-lock operations, at the read "
@@ -639,8 +759,10 @@ MANIFEST = {
     "unlocked read-modify-write of LiveRender._shape (Progress) is one action in the model.  (3) What a print renders to is a "
     "parameter (its lines); styles, text pending in the sys.stdout / sys.stderr proxies, Jupyter, the auto-refresh thread (modelled as one more thread calling "
     "refresh) are outside the model; capture blocks are not combined with a running display; in the constant-height scenarios start/stop run "
-    "before/after the concurrent phase.  (4) 'exactly one write per print' is stated through pieces (a print's rendering is one piece, in at most "
-    "one write); the count of write calls per print is checked on real rich, not proved.  Trusted: Lean kernel, the scheduler and "
+    "before/after the concurrent phase.  (4) the count of write calls per print is now proved as an upper bound (at_most_one_write_call_per_print) and 'exactly once' through "
+    "pieces (write_per_print); for Op.proxyPrint the static bound is 2 (its code has two _check_buffer calls; the inner one cannot write "
+    "because the buffer depth is 1 — not proved as a count); start/stop idempotence (hook stack depth <= 1, cursor hidden once, io redirected "
+    "once) is still checked on real rich and by trace inclusion, not a theorem.  Trusted: Lean kernel, the scheduler and "
     "the event instrumentation (lock proxies, traced list / live_render subclass), harness/term.py.",
     "design_ref": "DESIGN.md section 7, C11",
 }
